@@ -51,8 +51,8 @@ point; rounding-level energy ties; reference runs compared although scripted fau
 different chains; an ill-conditioned backward ESH step judged with a fixed tolerance).  "failing
 input" = the VIOLATION line carries a concrete replay on which the implementation breaks the
 property's text; "tie broken" = only the model/implementation correspondence failed (reported
-with `no-failing-input-found`).  C04's own check stays silent on C04-2/3/4/5, C01's on C01-6,
-C08's on C08-7 and C14's on C14-8 (caught by C15):
+with `no-failing-input-found`).  C04's own check stays silent on C04-2/3/4/5, C01's on C01-6 and
+C08's on C08-7:
 C04's claim is partial (the end-to-end statement is statistical) and those changes are caught by
 C02, whose statement they break directly.
 
